@@ -744,6 +744,8 @@ func c09Precedence(rt *rapid.T) *c09Case {
 		{"return wrap(fs)[0](1)", "@@\nvar v expression\n@@\n-wrap(v)\n+*v\n", "@@\n@@\n-(*fs)[0]\n+first(fs)\n"},
 		{"return eq(wrap(a+b), (a+b)*2)", "@@\nvar v expression\n@@\n-wrap(v)\n+v * 2\n", "@@\nvar y expression\n@@\n-eq(y, y)\n+same(y)\n"},
 		{"return a * x", "@@\n@@\n-x\n+b * c\n", "@@\n@@\n-a * b * c\n+ok\n"},
+		// a function type as the operand of a conversion
+		{"return conv(func(), h)", "@@\nvar t, v expression\n@@\n-conv(t, v)\n+t(v)\n", "@@\nvar y expression\n@@\n-(func())(y)\n+g(y)\n"},
 		// what an elision leaves of a list of type arguments: one
 		{"return foo[int, string](1)", "@@\n@@\n-foo[int, ..., string]\n+bar[..., string]\n", "@@\n@@\n-bar[string]\n+baz\n"},
 		{"return foo[int, string, bool](1)", "@@\n@@\n-foo[int, ...]\n+bar[...]\n", "@@\n@@\n-bar[string, bool]\n+baz\n"},
